@@ -39,10 +39,20 @@ class Replayer:
             raise Inconclusive("vreplay build failed (does /repo compile?):\n" + out[-3000:])
         cls._built = True
 
-    def ask(self, req):
+    def ask(self, req, timeout=120):
+        """one request, one answer line.  No answer within `timeout` seconds means the real code does not terminate on this
+        input (or is far too slow): the process is killed and the outcome is reported as {"crash": "timeout", "hang": True}."""
+        import select
         self.n += 1
         self.p.stdin.write(json.dumps(req) + "\n")
         self.p.stdin.flush()
+        ready, _, _ = select.select([self.p.stdout], [], [], timeout)
+        if not ready:
+            self.p.kill()
+            self.p.wait()
+            self.p = subprocess.Popen([self.exe()], stdin=subprocess.PIPE, stdout=subprocess.PIPE, stderr=subprocess.DEVNULL,
+                                      text=True, env=env(), bufsize=1)
+            return {"crash": "timeout", "hang": True, "panic": "no answer within %d s (does not terminate)" % timeout}
         line = self.p.stdout.readline()
         if not line:
             # the process died (abort / stack overflow): that is an outcome too
